@@ -22,13 +22,23 @@ func (fr *Frame) hasName(name string) bool {
 // lookupName resolves a Go-level variable name inside fr (used by loop invariants and asserts).
 func (fr *Frame) lookupName(name string, e *Env) (SVal, bool) {
 	c := fr.c
-	for _, p := range fr.fn.Params {
-		if p.Name() == name {
-			v := fr.vals[p]
-			return SVal{T: c.valTerm(v, name), Type: p.Type(), Val: &v}, true
+	hb, _ := e.hdrBlock.(*ssa.BasicBlock)
+	// a parameter that is never reassigned (no phi / DebugRef'd redefinition reaching here) is its entry value;
+	// reassigned parameters are resolved below like any other variable, falling back to the entry value
+	paramFallback := func() (SVal, bool) {
+		for _, p := range fr.fn.Params {
+			if p.Name() == name {
+				v := fr.vals[p]
+				return SVal{T: c.valTerm(v, name), Type: p.Type(), Val: &v}, true
+			}
+		}
+		return SVal{}, false
+	}
+	if hb == nil {
+		if v, ok := paramFallback(); ok {
+			return v, true
 		}
 	}
-	hb, _ := e.hdrBlock.(*ssa.BasicBlock)
 	// loop<k>_<name>: the header phi <name> of the loop with ordinal k (to mention an outer loop's variable inside an inner invariant)
 	if strings.HasPrefix(name, "loop") {
 		if i := strings.Index(name, "_"); i > 4 {
@@ -115,6 +125,9 @@ func (fr *Frame) lookupName(name string, e *Env) (SVal, bool) {
 		}
 	}
 	if best == nil {
+		if v, ok := paramFallback(); ok {
+			return v, true
+		}
 		// raw SSA register name (escape hatch)
 		for v, val := range fr.vals {
 			if v.Name() == name {
